@@ -37,7 +37,7 @@ CHECKS = {
            'Coq model + closure spec; correspondence on random dependency graphs', '5/C13'),
  'C14': em('Systems.v models reorderSystems (fold of update_before, priority sort, greedy placement) and the lifecycle automaton. Proved for every set of systems with unique names: the order is a permutation, a valid greedy order (constraints and priority rule), and the ordering throws exactly when the constraints contain a cycle (knot); the loop bound never causes a failure. Tier B: callback logs and states equal the model for distinct priority keys; tier A: order, lifecycle legality, removed systems never called, exception iff cycle.',
            'Coq proofs (permutation, greedy validity, stuck iff knot) + callback-log correspondence', '5/C14'),
- 'C15': em('Events.v models the slot tables; proved: every operation on any manager/type delivers exactly the specification\'s subscriber list and preserves the abstraction (step refinement from the initial state); registration is a frame for every other type; the pinned resize is refuted. Tier A/B: deliveries equal specification and model on scripts over several managers and types in any order.',
+ 'C15': em('Events.v models the slot tables; proved: every operation on any manager/type delivers exactly the specification\'s subscriber list and preserves the abstraction (step refinement from the initial state), lifted to whole runs against a self-contained specification that keeps its own list of live managers (C15_run_refines: the deliveries of every operation of every in-contract script are the specification's); registration is a frame for every other type; the pinned resize is refuted. Tier A/B: deliveries equal specification and model on scripts over several managers and types in any order.',
            'Coq refinement proof to a subscription-map spec + delivery correspondence', '5/C15'),
  'C16': dict(
     text='Theorems (Coq 8.16, closed under the global context) over definitions regenerated on every run from ecs/entity.hpp and ecs/id_deff.hpp by tools/cxx2coq.py: pack/unpack round trips for all in-range triples and all 2^64 patterns, next-version, null, equality, align-up and chunk/item split for all 32-bit arguments. The translator is validated by running the real inline functions against the extracted generated code.',
